@@ -240,6 +240,11 @@ Not decided: that the parsed list equals the source list, hoisted inner names fo
     borrow(ctx, "C09", "C09.splice", "C02.splice", &mut |sub| crate::rules::c09::run(m, sub));
     // a component that a traversal of the linker does not reach keeps its unexpanded notation, and the components it stands
     // for are missing from the generated item (= C09.traverse / C09.detect)
+    // a SET / SEQUENCE with components is generated — wherever its extension marker stands (= C01.emptyset)
+    match crate::rules::c01::registry_src(&m.repo, "rasn-derive-impl") {
+        Some(derive) => crate::rules::c01::empty_set(m, ctx, "C02.emptyset", &derive),
+        None => ctx.fail_closed("C02.emptyset", "pinned rasn-derive-impl sources not found in the cargo registry"),
+    }
     crate::rules::c09::traverse(m, ctx, "C02.traverse");
     crate::rules::c09::detectors(m, ctx, "C02.detect");
     // the rasn dispatcher and the generator methods agree on the kind each method is written for
